@@ -52,4 +52,13 @@ PROPS = {
         technique="Coq: exhaustive vm_compute over the finite vocabulary against switch tables regenerated from source, lifted with forallb_forall; hook-independence as a real forall; exhaustive name x position x hooks matrix on the real code",
         trusted=["Spec/Vocabulary.v is a transcription of the W3C ActivityStreams vocabulary (the oracle); the harness carries a second, independently written name->type table"],
     ),
+    "C20": dict(
+        props="Props/C20.v", module="Props.C20", harness="C20", pending=True,
+        n_quick=1, n_thorough=1,
+        model_files=["Model/NilMatrix.v", "Model/Conv.v", "Gen/Conv.v", "Gen/Helpers.v"],
+        go_funcs=["every exported function/method with an Item parameter (Gen/Helpers.v)"],
+        design_ref="7/C20",
+        technique="Coq: finite nil matrix computed from conversion tables regenerated from source (vm_compute, lifted), helper-coverage table condition; exhaustive nil x helper x position matrix on the real code with recover",
+        trusted=["Go semantics of value-receiver methods called through nil pointers (modelled as Panic outcomes)"],
+    ),
 }
